@@ -109,9 +109,12 @@ SPEC = {
     'driver_timeout': {'quick': 1800, 'thorough': 5400},   # trace validation of ~5000 snapshots in exact rationals
 
     'classify_crash': classify_crash,
-    'rule': 'one case = one (POMDP, solver) pair; 12 fixed POMDPs (Tiger, 1-state clamp witnesses, corner/face initial beliefs, all-negative rewards, two S=5 GapMin regression instances) then '
-            '38 (quick) / 298 (thorough) seeded dyadic POMDPs S<=4(5) A<=3 O<=3, discounts 1/2..15/16 (and 0.9/0.95/0.3), initial belief corner/face/interior; '
-            'SARSOP/GapMin run in a forked child under a 40 s / 120 s wall budget (completed iterations kept); solvers: BlindStrategies (both starts), FIB+QMDP, PBVI, PERSEUS, SARSOP (<=30/80 observed iterations), GapMin (<=12/30), look-ahead kernels. '
+    'rule': 'one case = one (POMDP, solver) pair; 19 fixed POMDPs (Tiger, 1-state clamp witnesses, corner/face initial beliefs, all-negative rewards, two S=5 GapMin regression instances, '
+            '4 instances with (action, observation) pairs impossible for every successor and rewards of one sign, 2 with transition probabilities 2^-21 below the library tolerance, the cut-off witness) then '
+            '31 (quick) / 291 (thorough) seeded dyadic POMDPs S<=4(5) A<=3 O<=3, discounts 1/2..15/16 (and 0.9/0.95/0.3), initial belief corner/face/interior; a quarter gets impossible (a,o) pairs '
+            '(half of those rewards of one sign); model kind dense 1/2, sparse Eigen 1/4, element-wise user model 1/4 (where the instantiation compiles: compile probes); '
+            'SARSOP/GapMin run in a forked child under a 40 s / 120 s wall budget (completed iterations kept); solvers: BlindStrategies (both starts), FIB+QMDP, PBVI, PERSEUS, SARSOP (<=30/80 observed iterations), GapMin (<=12/30), '
+            'look-ahead kernels + helper contracts (updateBelief*, beliefExpectedReward, findBestAtPoint, extractDominated, checkEqualProbability). '
             'non-trivial = every line (each carries a full POMDP); distinct by protocol line',
     'modelled': ['include/AIToolbox/POMDP/Algorithms/BlindStrategies.hpp: operator() (both starts, clamp, tolerance loop)',
                  'include/AIToolbox/POMDP/Algorithms/FastInformedBound.hpp: operator() plain and SOSA-parameterised (GapMin belief-augmented POMDP)',
@@ -119,10 +122,11 @@ SPEC = {
                  'include/AIToolbox/POMDP/Utils.hpp: makeSOSA, crossSumBestAtBelief (as backupVec of the linked vectors), bestConservativeAction (as found and repaired), bestPromisingAction (per-action value; sawtooth reading through the C12 model)',
                  'include/AIToolbox/POMDP/Algorithms/PBVI.hpp, PERSEUS.hpp: outer step = point backups of the previous timestep (links), any pruning',
                  'include/AIToolbox/POMDP/Algorithms/SARSOP.hpp, GapMin.hpp: event system of Props/C03Anytime.lean (NOT modelled: sampling heuristics, deltaPrune bookkeeping, selectReachableBeliefs, cleanUp index handling)',
-                 'src/Utils/Polytope.cpp: LPInterpolation / sawtoothInterpolation through the C12 models (Props/C03Bridge.lean: their values are IsInterp values)'],
+                 'src/Utils/Polytope.cpp: LPInterpolation / sawtoothInterpolation through the C12 models (Props/C03Bridge.lean: their values are IsInterp values)',
+                 'GapMin::makeNewPomdp weight / mass cut-offs, bestPromisingAction probability cut-off, Projecter possible-observation cut-off: as residual-carrying events (Props/C03Trunc.lean), slack proved'],
     'assumptions': ['V* = inf_k upperRef = sup_k lowerRef (the one step of real analysis; everything else is in exact rationals)',
                     'IEEE rounding outside the theorems: clauses on double outputs get the slack 1e-9*max(1,|R|max/(1-discount)); rows of T/O summing to 1 within 1e-12 are accepted as stochastic',
                     'a call that stops on a tolerance or horizon is sound up to the slack it reports itself (DESIGN §8 C03); zero slack where the monotone-from-a-safe-start theorems apply',
                     'soundness "at every belief" of implementation outputs is evaluated at the initial belief, all corners, the centre and the supplied beliefs; the for-all is the theorems\''],
-    'trusted_base': ['tools/extract_c03.py (start reductions, clamp literal, zero-probability skip of bestConservativeAction, call sites in SARSOP/GapMin)'],
+    'trusted_base': ['tools/extract_c03.py (start reductions, clamp literal, zero-probability skip of bestConservativeAction, call sites in SARSOP/GapMin, makeNewPomdp cut-offs and belief reward rows, Projecter reward share / impossible-observation branch)'],
 }
